@@ -103,7 +103,7 @@ def replay(path):
     vh = vlib.build_harness()
     obs, raw = observe(vh, [{"id": 0, "src": payload["input"]}])
     o = obs[0]
-    bad = o["off"]["acc"] != o["on"]["acc"] or (o["off"]["acc"] and o["off"]["parses"] and o["on"]["parses"] and o["off"]["erased"] != o["on"]["erased"])
+    bad = o["off"]["acc"] != o["on"]["acc"] or (o["off"]["acc"] and (o["off"]["parses"] != o["on"]["parses"] or (o["off"]["parses"] and o["off"]["erased"] != o["on"]["erased"])))
     if bad:
         print("VIOLATION property=%s replay=%s" % (PROP, path))
         return 1
